@@ -15,24 +15,57 @@ Trace == ndJsonDeserialize("trace.ndjson")
 \* quadratically when most of a trace is unexplained)
 Note(b, x) == IF Len(b) < 100 THEN Append(b, x) ELSE Append(b, [event |-> x.event])
 
-VARIABLES l, bad
-vars == <<l, bad>>
+VARIABLES l, bad, nsat
+vars == <<l, bad, nsat>>
+
+\* Event "batchignore": batch.Authorize over a request template with ignored parts and no variables, together with
+\* completions of the ignored parts.  The consequence of the statement at the level of the authorizer: whenever a
+\* permit policy is satisfied under a completion (evaluated HERE, by the specification), the batch answer under
+\* "ignore" is either allow with that policy among the reasons, or a denial by forbid policies (a forbid policy whose
+\* scope names an ignored part is widened too, so denials are possible); it is never a denial without reasons, never
+\* an allow that omits the policy, and exactly one result is delivered.
+IgnoreBad(ev) ==
+  IF "ok" \notin DOMAIN ev.obs \/ ~ev.obs.ok THEN {"panic or error"}
+  ELSE IF Len(ev.obs.results) # 1 THEN {"not exactly one result"}
+  ELSE LET ps == [i \in DOMAIN ev.policies |-> [id |-> ev.policies[i].id, p |-> PolicyFromWire(ev.policies[i].policy)]]
+           res == ev.obs.results[1]
+           reasons == { res.reasons[i] : i \in DOMAIN res.reasons }
+           forbidIds == { ps[i].id : i \in { k \in DOMAIN ps : ps[k].p.effect = "forbid" } }
+           permitIds == { ps[i].id : i \in { k \in DOMAIN ps : ps[k].p.effect = "permit" } }
+       IN (IF res.decision = "allow" /\ ~(reasons \subseteq permitIds /\ reasons # {}) THEN {"allow without permit reasons"} ELSE {})
+          \cup (IF res.decision = "deny" /\ ~(reasons \subseteq forbidIds) THEN {"deny with permit reasons"} ELSE {})
+          \cup { k \in DOMAIN ev.completions :
+                   LET env == EnvFromWire(ev.completions[k])
+                       sat == { ps[i].id : i \in { j \in DOMAIN ps : ps[j].p.effect = "permit" /\ Outcome(ps[j].p, env) = "sat" } }
+                   IN sat # {} /\ ~( (res.decision = "allow" /\ sat \subseteq reasons)
+                                     \/ (res.decision = "deny" /\ reasons # {}) ) }
+
+\* non-vacuity counter: completions under which some permit policy is satisfied
+IgnoreSat(ev) ==
+  IF "op" \in DOMAIN ev /\ ev.op = "batchignore"
+  THEN Cardinality({ k \in DOMAIN ev.completions :
+                      \E i \in DOMAIN ev.policies :
+                        LET p == PolicyFromWire(ev.policies[i].policy) IN
+                        p.effect = "permit" /\ Outcome(p, EnvFromWire(ev.completions[k])) = "sat" })
+  ELSE 0
 
 BadOf(ev) ==
-  IF "keep" \notin DOMAIN ev.obs THEN {"panic"}
+  IF "op" \in DOMAIN ev /\ ev.op = "batchignore" THEN IgnoreBad(ev)
+  ELSE IF "keep" \notin DOMAIN ev.obs THEN {"panic"}
   ELSE LET p == PolicyFromWire(ev.policy)
            pe == EnvFromWire(ev.penv)
            res == IF ev.obs.keep THEN PolicyFromWire(ev.obs.residual) ELSE p
        IN Unsound(p, pe, ev.obs.keep, res)
 
-Init == l = 1 /\ bad = <<>>
+Init == l = 1 /\ bad = <<>> /\ nsat = 0
 Next == /\ l <= Len(Trace)
         /\ LET b == BadOf(Trace[l]) IN
            bad' = IF b = {} THEN bad ELSE Note(bad, [event |-> l, n |-> Cardinality(b), witness |-> CHOOSE c \in b : TRUE])
+        /\ nsat' = nsat + IgnoreSat(Trace[l])
         /\ l' = l + 1
 Done == l = Len(Trace) + 1
 WriteOut ==
-  Done => Serialize(ToJson([events |-> Len(Trace), bad |-> bad]) \o "\n", "out.json",
+  Done => Serialize(ToJson([events |-> Len(Trace), bad |-> bad, ignore_completions_with_satisfied_permit |-> nsat]) \o "\n", "out.json",
                     [format |-> "TXT", charset |-> "UTF-8",
                      openOptions |-> <<"WRITE", "CREATE", "TRUNCATE_EXISTING">>]).exitValue = 0
 =============================================================================
